@@ -430,6 +430,11 @@ func MulticodeDecodeMultiple(s []byte) []*DenseGraph {
 	var numberOfVerticesLeft byte
 	for i := 0; i < len(s); i++ {
 		if numberOfVerticesLeft == 0 {
+			if s[i] <= 1 {
+				//A graph with at most one vertex is just the byte containing the number of vertices.
+				graphs = append(graphs, MulticodeDecode(s[i:i+1]))
+				continue
+			}
 			numberOfVerticesLeft = s[i] - 1
 			startOfGraph = i
 		}
